@@ -83,3 +83,72 @@ Proof.
   vm_compute. split; [reflexivity|discriminate].
 Qed.
 Print Assumptions C04_overlong_rules_share_a_link_refuted.
+
+(* Third listed finding C04/repeated-store-line-removal, as theorems of the model: the store holds a grouping line twice (a
+   hand-edited CSV); the rule list keeps both copies, the role manager holds ONE uncounted link.
+   (a) plain RBAC: remove_grouping_policies([[alice, admin]]) removes one copy and the link - the assignment is still in
+       the policy, a freshly built enforcer allows alice, this one refuses her;
+   (b) domain model: remove_grouping_policy(alice, admin, d1) twice (the first reports False and drops a copy) empties the
+       policy, but the per-domain link list held the link twice: the REVOKED assignment keeps granting access.
+   Replayed on the implementation by the check on every run. *)
+Definition k_dom3 : mkind := mkKind true true false false false AO true 0.
+Theorem C04_repeated_store_line_refuted :
+  (let s := fst (run k_rbac (init k_rbac [(0%N, [1006; 1008; 1011]%N); (1%N, [1003; 1006]%N); (1%N, [1003; 1006]%N)])
+                     [OLoad; ORemoveMany 1 [[1003; 1006]%N]]) in
+   m_g s = [[1003; 1006]%N]
+   /\ snd (enforce_ex_m k_rbac s [1003; 1008; 1011]%N) = Ok (false, None)
+   /\ snd (enforce_ex_m k_rbac (freshen k_rbac s) [1003; 1008; 1011]%N) = Ok (true, Some 0))
+  /\
+  (let s := fst (run k_dom3 (init k_dom3 [(0%N, [1006; 1013; 1008; 1011]%N); (1%N, [1003; 1006; 1013]%N); (1%N, [1003; 1006; 1013]%N)])
+                     [OLoad; ORemove 1 [1003; 1006; 1013]%N; ORemove 1 [1003; 1006; 1013]%N]) in
+   m_g s = []
+   /\ snd (enforce_ex_m k_dom3 s [1003; 1013; 1008; 1011]%N) = Ok (true, Some 0)
+   /\ snd (enforce_ex_m k_dom3 (freshen k_dom3 s) [1003; 1013; 1008; 1011]%N) = Ok (false, None)).
+Proof. vm_compute. repeat split; reflexivity. Qed.
+Print Assumptions C04_repeated_store_line_refuted.
+
+(* ---------------------------------------------------------------------------------------------------------------
+   Of the SOURCE: Assertion.build_role_links and Assertion.build_incremental_role_links (casbin/model/assertion.py) -
+   the two methods through which grouping rules become role links, at a rebuild and after every management call - are
+   re-translated on every run into programs of the language of LinkLang.v (coq/gen/RoleLinksGen.v); LinkTie.v proves that
+   the interpreter run on them, with the role-manager operations of the model (rm_link_add / rm_link_del), computes
+   links_add / links_del - the functions through which build_role_links and every step of `run` above change the role
+   managers: the size check, the truncation to the declared arity, one add_link / delete_link per rule in order, stopping
+   at the first exception with what was done so far.  For every rule list, manager state and declared arity >= 2. *)
+From PyCasbin Require LinkLang LinkTie.
+From PyCasbinGen Require RoleLinksGen.
+
+Theorem C04_source_build_role_links : forall cnt pol rm, 2 <= cnt ->
+  LinkTie.run_build cnt pol rm = links_add cnt rm pol EGroupArity.
+Proof. exact LinkTie.tie_build_role_links. Qed.
+Print Assumptions C04_source_build_role_links.
+
+Theorem C04_source_incremental_add : forall cnt rules rm, 2 <= cnt ->
+  LinkTie.run_incremental cnt LinkLang.KAdd rules rm = links_add cnt rm rules EGroupArity.
+Proof. exact LinkTie.tie_incremental_add. Qed.
+Print Assumptions C04_source_incremental_add.
+
+Theorem C04_source_incremental_remove : forall cnt rules rm, 2 <= cnt ->
+  LinkTie.run_incremental cnt LinkLang.KRemove rules rm = links_del cnt rm rules.
+Proof. exact LinkTie.tie_incremental_remove. Qed.
+Print Assumptions C04_source_incremental_remove.
+
+Theorem C04_source_role_definition_too_short : forall cnt pol rm, cnt < 2 ->
+  LinkTie.run_build cnt pol rm = (rm, Some ERuntime).
+Proof. exact LinkTie.tie_build_count_too_small. Qed.
+Print Assumptions C04_source_role_definition_too_short.
+
+(* the regenerated methods on concrete rules: a rebuild links two rules and stops at a short third one with the first two
+   linked; an incremental removal of a linked rule takes exactly that link away; removing a rule that was never linked is
+   a silent no-op of the plain role manager *)
+Example C04_source_example :
+  let rm0 := RMPlain (rm_empty 10) in
+  snd (LinkTie.run_build 2 [[1;2]; [2;3]; [4]; [5;6]]%N rm0) = Some EGroupArity
+  /\ g_link (fst (LinkTie.run_build 2 [[1;2]; [2;3]; [4]; [5;6]]%N rm0)) 1%N 3%N 0%N = true
+  /\ g_link (fst (LinkTie.run_build 2 [[1;2]; [2;3]; [4]; [5;6]]%N rm0)) 5%N 6%N 0%N = false
+  /\ (let rm1 := fst (LinkTie.run_build 2 [[1;2]; [2;3]]%N rm0) in
+      snd (LinkTie.run_incremental 2 LinkLang.KRemove [[1;2]]%N rm1) = None
+      /\ g_link (fst (LinkTie.run_incremental 2 LinkLang.KRemove [[1;2]]%N rm1)) 1%N 3%N 0%N = false
+      /\ g_link (fst (LinkTie.run_incremental 2 LinkLang.KRemove [[1;2]]%N rm1)) 2%N 3%N 0%N = true
+      /\ snd (LinkTie.run_incremental 2 LinkLang.KRemove [[7;8]]%N rm1) = None).
+Proof. vm_compute. repeat split; reflexivity. Qed.
